@@ -23,3 +23,8 @@ check('C10',
   'Trusted: Kani/CBMC, slice::sort_by as compiled. Window bounds are i16 widened to f64. The empty list is only checked for totality (documentation silent).',
   'Kani/CBMC bounded model checking of in-crate harnesses vs. a pairwise declarative rule',
   'DESIGN.md section 3 C10')
+check('C16',
+  'Bounded model checking of the matrix-backed routing providers in the real code: for 2 profiles x 2x2 (quick) / 3x3 (thorough) symbolic matrices (entries any i8, negative = unreachable) given in either order, every (profile, from, to) and scale in {0.5,1,2,4}, the time-agnostic provider returns exactly the supplied entry (durations x scale, distances unscaled), identically through the profile-based and the route-based API for any travel time; negative entries stay negative; empty sets, |dist|!=|dur|, different sizes, duplicate or gapped profile indices and timestamped matrices in the agnostic provider are rejected at construction; SimpleTransportCost likewise. Time-aware interpolation and the Euclidean matrix are decided by the MIR->SMT engine when present.',
+  'Trusted: Kani/CBMC; stubs: f64::sqrt := exact table on the lengths used, Arc::drop_slow := no-op, TimeAwareMatrixTransportCost::new := panic (shown unreachable). Pragmatic create_transport_costs / error codes -> -1, haversine approximation, location_fallback are outside.',
+  'Kani/CBMC bounded model checking of in-crate harnesses over symbolic matrices',
+  'DESIGN.md section 3 C16')
